@@ -27,6 +27,8 @@ feature is on (the check switches a trigger on only while its finding is NOT lis
                 scale_inner(t%in, f)). Without the trigger leaf is fed from a local copy that is filled member by member
   whole_object  tb+dt with a type-bound FUNCTION reference inside layer: becomes get_outer(t, k) - the scheduler does not discover
                 inline calls of bound functions, get_outer is not expanded and layer uses t as a whole and by member
+  tbfunc_first  mode tb: a type-bound FUNCTION reference t%get(k) in layer that is the first reference to any member of t in
+                that routine (the frontend then loses the argument list). Without the trigger a data member is referenced first
   dt_tbcall     mode dt while a type-bound CALL is still present in the kernel
   kw_anycase    mode dt, keyword call of layer with identifiers NOT written in lower case (layout idcase upper/mixed)
   shape_lb      assumed-shape dummy associated with an actual whose declared lower bound is not 1
@@ -51,7 +53,7 @@ FEATURES = {
 TRIGGERS = {
     'dt': ['lbv', 'whole_member', 'dt_tbcall', 'kw_anycase'],
     'tb+dt': ['lbv', 'whole_member', 'whole_object'],
-    'tb': [],
+    'tb': ['tbfunc_first'],
     'seq': [],
     'shape': ['shape_lb'],
     'dup': [],
@@ -360,7 +362,7 @@ def build_dt(case):
     env.vars.update(member_vars('t', 'outer', feat, lbv))
     pro = []
     locals_for(env, dd, pro, 'l', 1, 1)
-    body = pro + member_body(g.fork(311), env, 3)
+    tbl = []
     if feat.get('tb_in_layer'):
         lf = dict(feat)
         if mode == 'tb+dt':
@@ -369,7 +371,14 @@ def build_dt(case):
                 lf['tb_func'] = False
             if not (opts.get('all_derived_types') or feat.get('whole_member')):
                 lf['tb_nested'] = False
-        body += tb_calls(g.fork(331), lf, 't', 'c')
+        tbl = tb_calls(g.fork(331), lf, 't', 'c')
+    if tbl and feat.get('tbfunc_first'):
+        # trigger: the bound calls are the FIRST references to members of t in layer
+        body = pro + tbl + member_body(g.fork(311), env, 3)
+    else:
+        # a data member of t is referenced before any type-bound reference
+        guard = [['assign', var('c'), ['b', '+', var('c'), ['d', [['t', None], ['s', None]]]]]] if tbl else []
+        body = pro + member_body(g.fork(311), env, 3) + guard + tbl
     if feat.get('leaf'):
         if feat.get('leaf_outer'):
             body.append(['call', 'leaf', [var('n'), var('t'), var('c')], {}])
@@ -567,7 +576,10 @@ def build_shape(case):
             env.vars[nm] = {'type': 'real', 'dims': [[1, 3]] * r}
         pro = []
         locals_for(env, dd, pro, 'h', 1, 1)
-        gb = SG(case['stream'], dict(PROFILE, intrinsics=bool(feat.get('shape_inquiry')), reductions=bool(feat.get('shape_inquiry'))), salt)
+        # no whole-array/section statements: the environment only knows a lower bound (3) of the true extents (n, 6, 3),
+        # `x0(:) = x0(1:3)` would be a shape mismatch in the ORIGINAL
+        gb = SG(case['stream'], dict(PROFILE, sections=False, where=False, intrinsics=bool(feat.get('shape_inquiry')),
+                                     reductions=bool(feat.get('shape_inquiry'))), salt)
         body = pro + B.gen_body(gb, env, 0, 3)
         # the last element in every dimension and (optionally) the inquiry functions: sensitive to wrong bounds
         x0 = 'x0'
